@@ -198,7 +198,7 @@ theorem doRule_effect (p : Prefs) (lv sl : Nat) : ∀ r : Rule, doRule p lv sl (
         generalize doRules p lv sl rules = B
         intro ih
         cases A <;> cases B <;> simp only [SameTexts] at ih
-        · rw [ih]
+        · rename_i e e'; cases e; cases e'; rfl
         · simp only [pure, Except.pure]
           rw [mediaTail_nonEmpty p lv k _ name _ ih]
   | .page wf atk kw sel style rules => by
@@ -209,7 +209,7 @@ theorem doRule_effect (p : Prefs) (lv sl : Nat) : ∀ r : Rule, doRule p lv sl (
     generalize doRules p lv sl rules = B
     intro ih
     cases A <;> cases B <;> simp only [SameTexts] at ih
-    · rw [ih]
+    · rename_i e e'; cases e; cases e'; rfl
     · rename_i ts ts'
       have : pageRulesText p ts = pageRulesText p ts' := by
         rw [pageRulesText_nonEmpty p ts, pageRulesText_nonEmpty p ts', ih]
@@ -237,7 +237,6 @@ theorem doRules_effect (p : Prefs) (lv sl : Nat) : ∀ rs : List Rule,
       generalize doRules p lv sl rest = B
       intro ih
       cases A <;> cases B <;> simp only [SameTexts] at ih ⊢
-      · exact ih
       · simpa [nonEmptyTexts] using ih
     · simp only [doRules, doRule_effect p lv sl r]
       cases doRule p lv sl r with
@@ -248,9 +247,8 @@ theorem doRules_effect (p : Prefs) (lv sl : Nat) : ∀ rs : List Rule,
         generalize doRules p lv sl (effectRules p lv rest) = A
         generalize doRules p lv sl rest = B
         intro ih
-        cases A <;> cases B <;> simp only [SameTexts] at ih ⊢
-        · exact ih
-        · simp only [pure, Except.pure, nonEmptyTexts, List.filter_cons] at ih ⊢
+        cases A <;> cases B <;> simp only [SameTexts, pure, Except.pure] at ih ⊢
+        · simp only [nonEmptyTexts, List.filter_cons] at ih ⊢
           split <;> simp [ih]
 end
 
@@ -288,7 +286,7 @@ theorem doSheet_effect (p : Prefs) (sl : Nat) (s : Sheet) : doSheet p sl (effect
   generalize doRules p 0 sl (s.rules.filter fun r => !nsDropped p s.usedUris r) = B
   intro ih
   cases A <;> cases B <;> simp only [SameTexts] at ih
-  · rw [ih]
+  · rename_i e e'; cases e; cases e'; rfl
   · simp only [nonEmptyTexts] at ih
     simp only [ih]
 
@@ -343,5 +341,55 @@ theorem mediaTail_minified (p : Prefs) (hi : p.indent = []) (hl : p.lineSeparato
   split
   · rfl
   · simp [mediaRulesOut_minified p hl]
+
+
+/-! ### after the repairs -/
+
+theorem doURule_not_kept (p : Prefs) (lv : Nat) (r : URule) (hk : p.keepUnknownAtRules = false) :
+    doURule p lv r = pure [] := by
+  cases r with
+  | mk wf atk items => simp [doURule, hk]
+
+theorem declOut_all_unknown (p : Prefs) (lv : Nat) (sep : Cps) (ol : Bool) (hk : p.keepUnknownAtRules = false) :
+    ∀ items : List DItem, (∀ it ∈ items, ∃ r, it = .urule r) → declOut p lv sep ol items = pure []
+  | [], _ => rfl
+  | it :: rest, hall => by
+    obtain ⟨r, rfl⟩ := hall it List.mem_cons_self
+    have ih := declOut_all_unknown p lv sep ol hk rest (fun x hx => hall x (List.mem_cons_of_mem _ hx))
+    simp [declOut, declHere, doURule_not_kept p lv r hk, ih, pure, Except.pure]
+
+theorem declSeq_no_props (p : Prefs) : ∀ items : List DItem, (∀ it ∈ items, ∃ r, it = .urule r) →
+    declSeq p items = items := by
+  intro items hall
+  unfold declSeq
+  split
+  · rfl
+  · dsimp only
+    refine (congrArg _ (List.filter_eq_self.mpr ?_)).trans (by simp)
+    intro x hx
+    obtain ⟨r, hr⟩ := hall x.1 (by
+      rcases x with ⟨a, i⟩
+      exact (List.mem_zipIdx hx).2.2 ▸ List.getElem_mem _)
+    rw [hr]
+
+/-- **(was finding C06-empty-items-block)** a block that holds nothing but unknown at-rules is written as the EMPTY
+text when `keepUnknownAtRules` is off — under every record, whatever the line separator is — so the rule around it
+counts as empty under every layout. -/
+theorem doDecl_all_unknown_dropped (p : Prefs) (lv : Nat) (om : Bool) (hk : p.keepUnknownAtRules = false)
+    (items : List DItem) (hall : ∀ it ∈ items, ∃ r, it = .urule r) : doDecl p lv items om = .ok [] := by
+  unfold doDecl
+  split
+  · rfl
+  · rw [declSeq_no_props p items hall, declOut_all_unknown p lv _ _ hk items hall]
+    rfl
+
+/-- **(was finding C06-linenumbers-emptysep)** -/
+theorem lineNumbers_empty_separator (p : Prefs) (t : Cps) (h : p.lineSeparator = []) : lineNumbers p t = .ok t := by
+  simp [lineNumbers, h, pure, Except.pure]
+
+/-- **(was finding C06-atkeyword-attr)** `_atkeyword` is total: the literal keyword if the rule recorded one, else the
+normalised keyword -/
+theorem atKeyword_total (p : Prefs) (atk : Cps) (kw : Option Cps) :
+    atKeyword p atk kw = .ok (if p.defaultAtKeyword then atk else kw.getD atk) := rfl
 
 end CssVerif.Out
